@@ -216,6 +216,13 @@ def run_history(arg):
 
     if dict(pp.get_default_config()) != model:
         bad('initial-defaults', 'get_default_config() initially %r' % dict(pp.get_default_config()), {'history': []})
+    # long-lived printer objects: built BEFORE the history changes the defaults, used after it (a setting left to the default is resolved
+    # at the call, like every other entry point: "later calls without explicit arguments use" the new defaults)
+    early = []
+    try:
+        early = [(ex, pp.PrettyPrinter(**ex)) for ex in ([{}] + list(combos[:5]))]
+    except Exception as e:
+        bad('prettyprinter-class-raised', 'PrettyPrinter(**settings) raised %r' % (e,), {'history': []})
     for step, upd in enumerate(history):
         try:
             pp.set_default_config(**upd)
@@ -312,6 +319,21 @@ def run_history(arg):
                 expect('PrettyPrinter.pprint', st.getvalue(), want + '\n')
             except Exception as e:
                 bad('prettyprinter-class-raised', 'PrettyPrinter(**settings).pformat/pprint raised %r' % (e,), case)
+    for ex, printer in early:
+        eff = effective(model, ex)
+        for vi, v in enumerate(vals[:4]):
+            case = {'history': history, 'explicit': {k: repr(x) for k, x in ex.items()}, 'value': vi, 'printer object': 'constructed before the history'}
+            try:
+                want = ref(v, eff)
+                got = printer.pformat(v)
+            except Exception as e:
+                bad('prettyprinter-class-raised', 'a PrettyPrinter built before set_default_config raised %r' % (e,), case)
+                continue
+            obs['entry point calls compared'] += 1
+            if got != want:
+                bad('entry-point-differs:PrettyPrinter-built-before-set_default_config', 'a PrettyPrinter(**explicit) constructed before the defaults were changed gives %r, pformat with the explicit settings and the CURRENT defaults gives %r' % (got[:200], want[:200]), case)
+            else:
+                obs['agree: PrettyPrinter object built before set_default_config'] += 1
     # pretty_repr uses the defaults only
     try:
         r = repr(vals[3])
